@@ -85,6 +85,31 @@ theorem handle_outcome (keep : Bool) (names : Names) (oks : List Bool) (out : Ou
   · simp [handle, runBody, RunResult.failed, HandleResult.failed, Spec.fails, Spec.patchApplied,
       Spec.metricsApplied, Spec.admissionRelayed, Spec.conversionRelayed, h0]
 
+/-- **C12.1 (the contract as worded)** What `taskHandleHookRun` + `handleRunHook` + `Run` do is
+admitted by the property's contract, for every exit code, every output, every `allowFailure`. -/
+theorem execution_meets_contract (allow keep : Bool) (names : Names) (oks : List Bool) (out : Outputs)
+    (dir : List Name) (hok : ∀ b ∈ oks, b = true) :
+    let h := handle (run keep names oks out dir)
+    Spec.admits out allow (taskStatusFail allow h) h.patchExecuted h.metricsSent h.admissionProp
+      h.conversionProp = true := by
+  have ho := handle_outcome keep names oks out dir hok
+  simp only at ho
+  obtain ⟨h1, h2, h3, h4, h5⟩ := ho
+  simp only [taskStatusFail, h1, h2, h3, h4, h5]
+  obtain ⟨e, m, a, c, p⟩ := out
+  by_cases h0 : e = 0
+  · subst h0
+    cases m <;> cases a <;> cases c <;> cases p <;> cases allow <;>
+      first
+      | (rename_i b1 b2; cases b1 <;> cases b2 <;> simp [Spec.admits, Spec.fails, Spec.malformed,
+          Spec.patchApplied, Spec.metricsApplied, Spec.admissionRelayed, Spec.conversionRelayed])
+      | (rename_i b1; cases b1 <;> simp [Spec.admits, Spec.fails, Spec.malformed,
+          Spec.patchApplied, Spec.metricsApplied, Spec.admissionRelayed, Spec.conversionRelayed])
+      | simp [Spec.admits, Spec.fails, Spec.malformed,
+          Spec.patchApplied, Spec.metricsApplied, Spec.admissionRelayed, Spec.conversionRelayed]
+  · simp [Spec.admits, Spec.fails, Spec.patchApplied, Spec.metricsApplied, Spec.admissionRelayed,
+      Spec.conversionRelayed, h0]
+
 /-- A non-zero exit is a failure whatever the files contain, and nothing is applied. -/
 theorem nonzero_exit_fails (keep : Bool) (names : Names) (oks : List Bool) (out : Outputs)
     (dir : List Name) (hok : ∀ b ∈ oks, b = true) (he : out.exit ≠ 0) :
